@@ -98,6 +98,12 @@ func main() {
 				if prop == "C14" {
 					workers = 2 // every operation runs up to 8 spinning goroutines of its own
 				}
+				if prop == "C17" {
+					workers = 6 // one child process (a whole server and its clients) per operation
+					if tier == "race" || raceEnabled {
+						workers = 2
+					}
+				}
 				var pw sync.WaitGroup
 				next := make(chan int, 1024)
 				for k := 0; k < workers; k++ {
